@@ -3,6 +3,7 @@ package main
 import (
 	"context"
 	"fmt"
+	"github.com/brimdata/super/pkg/verifhook"
 
 	"github.com/segmentio/ksuid"
 
@@ -26,6 +27,9 @@ func c15Side(branch string, base int) []lk.Op {
 }
 
 func runC15(c *rt.Ctx) {
+	// released zngio buffers are overwritten (H1): lake code that keeps using a
+	// value after the reader has moved on reads garbage deterministically
+	verifhook.SetPoison(true)
 	c.Note("rule", "case = one branching history on a fresh in-memory lake; exhaustive part: main gets two loads, a child branch is created, then every pair of operation sequences (≤L per side) over {load, delete obj0, delete obj1, delete-where, compact} on child and parent, followed by merge child→parent, merge again, revert of the merge commit and revert of the revert; random part: 1–3 branches created at any commit (also from an empty main, nested), random loads/deletes/delete-where/compactions on all sides, merges in both directions, reverts of any earlier commit; after every operation every branch is read from a cold handle and compared with an object-level model (merge: parent ∪ child-adds-since-ancestor ∖ child-deletes-since-ancestor; a failed merge or revert must leave everything unchanged); non-trivial = both sides changed since the common ancestor before a merge; distinct by case id")
 	c.Note("assumptions", "the model's merge/revert formula is the one in the property statement, at data-object granularity\nan error from merge/revert is accepted whatever its text as long as no branch changes")
 	L := c.N(2, 3)
